@@ -70,8 +70,10 @@ class Module:
         from . import alpha, canon
         # semantics-preserving canonicalisation: inline functions / locals the reference tree does not have,
         # rename locals back to the reference names (see vk/canon.py, vk/alpha.py)
+        consts = canon.inline_new_constants(relpath, self.tree)
         self.idioms = canon.normalise_idioms(self.tree)
         self.canon, self.canon_refused = canon.canonicalise(relpath, self.tree)
+        self.canon = consts + list(self.canon)
         self.renames = alpha.normalise(relpath, self.tree)
         more = canon.inline_new_locals(relpath, self.tree)
         if more:
@@ -133,6 +135,23 @@ class Program:
         root = os.path.join(self.repo, PKG)
         if not os.path.isdir(root):
             raise AnalysisError("E0", PKG, f"package directory not found under {repo}")
+        # named constants the reference tree does not have, per module (so that `from m import CONST` resolves too)
+        from . import canon as _canon
+        _canon.EXTERNAL_CONSTS.clear()
+        for dp, dn, fn in os.walk(root):
+            dn[:] = sorted(d for d in dn if d != "__pycache__")
+            for f in sorted(fn):
+                if f.endswith(".py"):
+                    full = os.path.join(dp, f)
+                    rel = os.path.relpath(full, self.repo).replace(os.sep, "/")
+                    modname = rel[:-3].replace("/", ".")
+                    if modname.endswith(".__init__"):
+                        modname = modname[:-9]
+                    try:
+                        with open(full, encoding="utf-8") as fh:
+                            _canon.collect_new_constants(rel, modname, ast.parse(fh.read()))
+                    except SyntaxError:
+                        pass
         for dp, dn, fn in os.walk(root):
             dn[:] = sorted(d for d in dn if d != "__pycache__")
             for f in sorted(fn):
